@@ -81,10 +81,12 @@ HEADERS = [
 TIERS = {
     "quick": dict(
         fmt=dict(KeyLen=1, ValLen=2, TwoKeys=True, SecondToks={"END", "dq"}, NRows={1}),
-        brt=dict(RowCounts={1, 2, 5}, CrossIO=False, MaxFields=6, BigItems={12, 20}, BigExps={24}), sim=400, random=1500),
+        brt=dict(RowCounts={1, 2, 5}, CrossIO=False, MaxFields=6, BigItems={12, 20}, BigExps={24}, MaxHist=8, HistEvery=3),
+        sim=400, random=1500),
     "thorough": dict(
         fmt=dict(KeyLen=2, ValLen=2, TwoKeys=True, SecondToks=set(ALPHABET), NRows={25}),
-        brt=dict(RowCounts={1, 2, 5}, CrossIO=True, MaxFields=6, BigItems={3, 8, 12, 16, 20, 24}, BigExps={24, 25}),
+        brt=dict(RowCounts={1, 2, 5}, CrossIO=True, MaxFields=6, BigItems={3, 8, 12, 16, 20, 24}, BigExps={24, 25},
+                 MaxHist=30, HistEvery=4),
         sim=20000, random=20000),
 }
 
@@ -383,11 +385,11 @@ def do_write(writer, path, a, hdr):
         raise MachineryError("unknown writer %r" % writer)
 
 
-def do_read(reader, path, a, off, variant, reuse):
+def do_read(reader, path, dtype, nrows, off, variant, reuse):
     """-> (data, header or None)"""
     from esutil import sfile, recfile
     import esutil.io as eio
-    dt = a.dtype if variant % 2 == 0 else a.dtype.descr
+    dt = dtype if variant % 2 == 0 else dtype.descr
     if reader == "SFile.read":
         with sfile.SFile(path) as sf:
             return sf.read(header=True)
@@ -413,7 +415,7 @@ def do_read(reader, path, a, off, variant, reuse):
         with recfile.Recfile(path, dtype=dt, offset=off) as r:
             return r.read(), None
     if reader == "Recfile.read(nrows)":
-        with recfile.Recfile(path, mode="r", dtype=dt, offset=off, nrows=int(a.size)) as r:
+        with recfile.Recfile(path, mode="r", dtype=dt, offset=off, nrows=int(nrows)) as r:
             return r.read(), None
     if reader == "Recfile[:]":
         with recfile.Recfile(path, dtype=dt, offset=off) as r:
@@ -423,6 +425,54 @@ def do_read(reader, path, a, off, variant, reuse):
     if reader == "io.read(dtype)":
         return eio.read(path, dtype=dt, offset=off), None
     raise MachineryError("unknown reader %r" % reader)
+
+
+def do_append(hmode, path, chunk, handle):
+    from esutil import sfile
+    import esutil.io as eio
+    if hmode == "handle":
+        handle.write(chunk)
+    elif hmode == "reopen":
+        with sfile.SFile(path, "r+") as sf:
+            sf.write(chunk)
+    elif hmode == "sfile.append":
+        sfile.write(path, chunk, append=True)
+    elif hmode == "io.append":
+        eio.write(path, chunk, append=True)
+    else:
+        raise MachineryError("unknown history mode %r" % hmode)
+
+
+def run_history(case, path, a, hdr, tab):
+    """first write, then every step of the history (an append of the file's dtype or of another one); a call that
+    raises is recorded as 'rejected' and the history goes on, as a caller that catches the exception would.
+    -> the steps as observed [descr, k, rows, out]"""
+    from esutil import sfile
+    steps = []
+    handle = None
+    try:
+        if case["hmode"] == "handle":
+            handle = sfile.SFile(path, "w")
+            handle.write(a, **({} if hdr is None else {"header": hdr}))
+        else:
+            do_write(case["writer"], path, a, hdr)
+        for i, st in enumerate(case["steps"]):
+            chunk = build_array(st["descr"], st["k"], case.get("pat", 0) + 1000 * (i + 1))
+            same = chunk.dtype == a.dtype
+            out = "ok"
+            try:
+                do_append(case["hmode"], path, chunk, handle)
+            except MachineryError:
+                raise
+            except Exception:  # noqa
+                out = "rejected"
+            flat = chunk.reshape(-1)
+            rows = [tab.setdefault(flat[j:j + 1].tobytes(), len(tab) + 1) for j in range(flat.size)] if same else []
+            steps.append({"descr": project_dtype(chunk.dtype), "k": int(st["k"]), "rows": rows, "out": out})
+    finally:
+        if handle is not None:
+            handle.close()
+    return steps
 
 
 def _write_only(case, path, reuse):
@@ -459,14 +509,18 @@ def exec_unit(args):
         before = a.tobytes() if block == 1 else None
         rec = {"id": rid, "case": case, "prev": prev,
                "c": {"writer": case["writer"], "layout": case.get("layout", "contig"), "descr": project_dtype(a.dtype),
-                     "n": int(a.size), "block": case_block(case), "rows": toks,
+                     "n": int(a.size), "block": case_block(case), "rows": toks, "steps": [],
                      "hdr": {"given": hdr is not None,
                              "ents": [{"k": i, "v": i, "reserved": k.startswith("_")} for i, (k, _) in enumerate(user, 1)]}},
                "w": {"err": "none"}, "obs": [], "groups": [], "raw": {"seen": False, "n": 0, "rows": []}, "info": {}}
         if rec["c"]["descr"] != [dict(f, shape=[int(x) for x in f["shape"]], size=int(f["size"])) for f in case["descr"]]:
             raise MachineryError("dtype construction does not match the case: %s vs %s" % (rec["c"]["descr"], case["descr"]))
+        hist = bool(case.get("steps"))
         try:
-            do_write(case["writer"], path, a, hdr)
+            if hist:
+                rec["c"]["steps"] = run_history(case, path, a, hdr, tab)
+            else:
+                do_write(case["writer"], path, a, hdr)
         except MachineryError:
             raise
         except Exception as e:  # noqa
@@ -475,12 +529,26 @@ def exec_unit(args):
         rec["info"]["arg_unchanged"] = (before is None or a.tobytes() == before)
         size = os.path.getsize(path)
         # data region: the tail of a header file; the whole of a header-less file (read with the default offset 0)
-        off = size - a.nbytes if case["writer"] in HDR_WRITERS else 0
+        if hist:
+            # the header of a file that is appended to keeps its length: measure it on a sibling file holding the
+            # first table only; the row count the low-level readers are given comes from the file size
+            from esutil import sfile
+            sib = path + ".first"
+            try:
+                sfile.write(sib, a, **({} if hdr is None else {"header": hdr}))
+                off = os.path.getsize(sib) - a.nbytes
+            finally:
+                if os.path.exists(sib):
+                    os.unlink(sib)
+            nraw = (size - off) // a.dtype.itemsize if (size - off) % a.dtype.itemsize == 0 else -1
+        else:
+            off = size - a.nbytes if case["writer"] in HDR_WRITERS else 0
+            nraw = int(a.size) if size - off == a.nbytes else -1
         with open(path, "rb") as f:
             blob = f.read()
-        if off >= 0 and len(blob) - off == a.nbytes:
+        if off >= 0 and nraw >= 0:
             try:
-                rec["raw"] = {"seen": True, "n": int(a.size),
+                rec["raw"] = {"seen": True, "n": int(nraw),
                               "rows": project_rows(np.frombuffer(blob[off:], dtype=a.dtype), tab, block)}
             except Exception:  # noqa
                 rec["raw"] = {"seen": True, "n": 0, "rows": []}
@@ -493,7 +561,7 @@ def exec_unit(args):
         for j, reader in enumerate(readers):
             o = {"reader": reader, "err": "none", "descr": [], "n": 0, "rows": [], "hdr": NO_HDR}
             try:
-                d, h = do_read(reader, path, a, max(off, 0), case.get("pat", 0) + j, reuse)
+                d, h = do_read(reader, path, a.dtype, max(nraw, 1), max(off, 0), case.get("pat", 0) + j, reuse)
                 if not isinstance(d, np.ndarray):
                     o["err"] = "not_an_array"
                 else:
@@ -639,7 +707,7 @@ def crash_record(unit, why):
     toks, _ = row_tokens(a, case_block(case))
     rec = {"id": rid, "case": case, "prev": prev,
            "c": {"writer": case["writer"], "layout": case.get("layout", "contig"), "descr": project_dtype(a.dtype),
-                     "n": int(a.size), "block": case_block(case), "rows": toks,
+                     "n": int(a.size), "block": case_block(case), "rows": toks, "steps": [],
                  "hdr": {"given": hdr is not None,
                          "ents": [{"k": i, "v": i, "reserved": k.startswith("_")} for i, (k, _) in enumerate(user, 1)]}},
            "w": {"err": "crashed", "msg": why}, "obs": [], "raw": {"seen": False, "n": 0, "rows": []}, "info": {}}
@@ -682,7 +750,8 @@ def case_from_mc(c, k):
         h = dict(h or {})
         h[key] = val
     return {"src": c["src"], "writer": c["writer"], "layout": c["layout"], "descr": c["descr"], "nrows": c["nrows"],
-            "n": c["n"], "block": c["block"], "hdr": None if h is None else repr(h), "hid": c["hid"], "pat": k}
+            "n": c["n"], "block": c["block"], "hdr": None if h is None else repr(h), "hid": c["hid"], "pat": k,
+            "hmode": c["hmode"], "steps": [{"kind": st["kind"], "k": st["k"], "descr": st["descr"]} for st in c["steps"]]}
 
 
 def case_from_fmt(hc, k):
@@ -868,8 +937,10 @@ def signatures(rec, failing):
             else:
                 noncontig = case.get("layout", "contig") not in ("contig", "zerod")
                 big = case_block(case) > 1
-                sig = "%s|%s|%s" % (g, clause, "non_contiguous_input" if noncontig else
-                                    "table_over_2^24_bytes" if big else order_class(case))
+                outs = [st["out"] for st in rec["c"].get("steps", [])]
+                hist = ("after_refused_append" if "rejected" in outs else "after_append") if outs else None
+                sig = "%s|%s|%s" % (g, clause, hist or ("non_contiguous_input" if noncontig else
+                                                        "table_over_2^24_bytes" if big else order_class(case)))
             rep = g if g in ents else (case["writer"] if case["writer"] in ents else sorted(ents)[0])
             out.append((sig, rep, clause))
     return out
@@ -902,8 +973,8 @@ def units(cases, start_id):
 
 # =========================================== the check ===================================================================
 FMT_INV = ["DataStartRefines", "ParseRefines", "TerminatorUnique"]
-BRT_INV = ["ReadInv", "SizeInv", "CrossEntry", "LastWriteWins", "LayoutIndependent", "CasesInScope"]
-BRT_REQ = ["ChooseSingle", "ChooseFirst", "ChooseSecond", "ChooseIO", "ChooseBig", "DoWrite", "DoRead", "Rewrite"]
+BRT_INV = ["ReadInv", "SizeInv", "CrossEntry", "LastWriteWins", "LayoutIndependent", "CasesInScope", "HistOK"]
+BRT_REQ = ["ChooseSingle", "ChooseFirst", "ChooseSecond", "ChooseIO", "ChooseBig", "ChooseHist", "DoWrite", "DoStep", "DoRead", "Rewrite"]
 
 
 def fmt_consts(T, scanner="LINE5", export=False, **over):
@@ -942,7 +1013,7 @@ def tlc_jobs(ctx, T, part):
         # 3. design level: the property-level state machine
         jobs["brt"] = lambda: ctx.tlc(
             "BinRoundTripMC.tla", what="file state machine: round trip, cross-entry, last write wins",
-            cfg_text=cfg(constants=brt_consts(T), invariants=BRT_INV, properties=["ReadsArePure"]),
+            cfg_text=cfg(constants=brt_consts(T), invariants=BRT_INV, properties=["ReadsArePure", "RejectIsStutter"]),
             workers=16, require=BRT_REQ, timeout=3000)
     if part("brtcases"):
         # 4. spec -> code: every dtype / entry-point case; simulated wider dtypes
@@ -953,7 +1024,7 @@ def tlc_jobs(ctx, T, part):
         jobs["brt_sim"] = lambda: ctx.tlc(
             "BinRoundTripMC.tla", what="simulate %d wider dtypes" % T["sim"],
             cfg_text=cfg(constants=brt_consts(T), next_="NextSim"), workers=1, coverage=False, timeout=3000,
-            simulate="num=%d" % T["sim"], extra=["-depth", "10", "-seed", str(ctx.seed + 1)])
+            simulate="num=%d" % T["sim"], extra=["-depth", str(11 + T["brt"]["MaxHist"]), "-seed", str(ctx.seed + 1)])
     order = ["fmt", "fmt_export", "brt_export", "brt_sim", "brt", "fmt_selftest"]
     names = [n for n in order if n in jobs]
     nthreads = 3 if int(os.environ.get("VH_MAX_WORKERS", "16")) <= 4 else 6
@@ -1014,6 +1085,13 @@ def run(ctx):
     light = [u for u in us if not (case_block(u[2]) > 1 or (u[1] is not None and case_block(u[1]) > 1))]
     all_recs = sorted(run_units(light) + run_units(heavy, chunk=1), key=lambda r: r["id"])
     ctx.note(big_table_cases=sum(1 for c in cases if case_block(c) > 1))
+    hrecs_ = [r for r in all_recs if r["c"].get("steps")]
+    nrej = sum(1 for r in hrecs_ for st in r["c"]["steps"] if st["out"] == "rejected")
+    nfree = sum(1 for r in hrecs_ if any(st["out"] == "ok" and st["descr"] != r["c"]["descr"] for st in r["c"]["steps"]))
+    ctx.note(history_cases=len(hrecs_), history_steps=sum(len(r["c"]["steps"]) for r in hrecs_), refused_appends_observed=nrej,
+             histories_unconstrained_after_accepted_foreign_append=nfree)
+    if "brt_export" in res and not hrecs_:
+        raise MachineryError("no history case was executed")
     for r in all_recs:
         ctx.count({"p": r["prev"], "c": r["case"]})
     ctx.log("%d write/read cycles executed (%s)" % (len(all_recs), ", ".join("%s %d" % (g, len(cs)) for g, cs in groups)))
